@@ -333,6 +333,15 @@ def run(ctx):
     ls = [l for l in loops(pm) if l["stmt"] is not None and pm.nodes[l["stmt"]]["k"] in ("for", "while") and "num_read" in loop_header(pm, l)]
     okb = len(ls) == 1 and re.search(r"\(num_read < (\d+)\)", loop_header(pm, ls[0])) is not None
     bound = int(re.search(r"\(num_read < (\d+)\)", loop_header(pm, ls[0])).group(1)) if okb else None
+    if len(ls) == 1 and not okb:
+        # the bound as a named constant: `num_read < kMax` with kMax folded by the front end
+        cnd = pm.nodes[ls[0]["stmt"]].get("c")
+        cn_ = pm.nodes[pm.strip(cnd)] if isinstance(cnd, int) and cnd >= 0 else {}
+        if cn_.get("k") == "bin" and cn_.get("op") == "<" and pm.text(cn_["l"]) == "num_read":
+            rn_ = pm.nodes[pm.strip(cn_["r"])]
+            if "cval" in rn_ or (rn_["k"] == "lit" and str(rn_.get("v", "")).isdigit()):
+                bound = int(rn_.get("cval", rn_.get("v")))
+                okb = True
     reads = pm.calls("read")
     if not ls:
         ctx.broken("bounded-read", "anchor", pm.loc(), "no read loop counted by num_read found in processMsg itself (moved into a helper?): the rules on the request read loop cannot be evaluated")
@@ -477,7 +486,7 @@ def run(ctx):
         fe = [i for i in rsf.calls() if re.search(r"\bfor_each\b", rsf.nodes[i].get("callee") or rsf.nodes[i].get("cname") or "") and len(rsf.nodes[i].get("args", [])) == 3 and
               rsf.text(rsf.nodes[i]["args"][0]) == "this->stats_.begin()" and rsf.text(rsf.nodes[i]["args"][1]) == "this->stats_.end()"]
         if len(fe) == 1:
-            lam = P.fns.get(rsf.nodes[rsf.strip(rsf.nodes[fe[0]]["args"][2])].get("lusr"))
+            lam = P.closure_fn(rsf.nodes[rsf.strip(rsf.nodes[fe[0]]["args"][2])].get("lusr"))
             if lam is not None and len(lam.params) == 1:
                 pn_ = lam.params[0]["name"]
                 ws_ = [n_ for n_ in lam.nodes if n_["k"] in ("bin", "call") and n_.get("op") in ("=", "+=", "-=", "++", "--")]
